@@ -4,19 +4,9 @@
     [None] and its lemma degrades to [True]; a function whose translation
     changed meaning breaks its lemma. *)
 From RepeV Require Import Model.Condvar Proofs.StreamProofs Base.GenPrelude Gen.StreamGen.
+From RepeV Require Export Proofs.GenAgreeBase.
 From Coq Require Import ZifyBool ZifyN ZifyNat.
 Ltac Zify.zify_post_hook ::= Z.div_mod_to_equations.
-
-Definition agrees1 {A B} (g : option (A -> B)) (m : A -> B) : Prop :=
-  match g with Some f => forall a, f a = m a | None => True end.
-Definition agrees2 {A B C} (g : option (A -> B -> C)) (m : A -> B -> C) : Prop :=
-  match g with Some f => forall a b, f a b = m a b | None => True end.
-Definition agrees3 {A B C D} (g : option (A -> B -> C -> D)) (m : A -> B -> C -> D) : Prop :=
-  match g with Some f => forall a b c, f a b c = m a b c | None => True end.
-Definition agrees4 {A B C D E} (g : option (A -> B -> C -> D -> E)) (m : A -> B -> C -> D -> E) : Prop :=
-  match g with Some f => forall a b c d, f a b c d = m a b c d | None => True end.
-Definition agrees5 {A B C D E F} (g : option (A -> B -> C -> D -> E -> F)) (m : A -> B -> C -> D -> E -> F) : Prop :=
-  match g with Some f => forall a b c d e, f a b c d e = m a b c d e | None => True end.
 
 (** how the Rust return values are named in the hand model *)
 Definition out_of_resume (r : result N resume_rejection) : out :=
@@ -69,34 +59,6 @@ Ltac split_ifs :=
 Ltac done :=
   try reflexivity; try discriminate; try congruence;
   try (exfalso; lia); try (repeat f_equal; lia).
-(** reduce [match gen_X with Some f => P f | None => True end] to [P body_X] with
-    [body_X] unfolded, or close the goal when [gen_X] is [None]; every later
-    sentence of a proof starts with [all:] so that it is skipped in that case
-    (and no proof mentions a [body_X] by name: it may not exist) *)
-Ltac gen_start :=
-  unfold agrees1, agrees2, agrees3, agrees4, agrees5;
-  lazymatch goal with
-  | |- match ?g with Some _ => _ | None => _ end =>
-      let g' := eval red in g in
-      change g with g'; cbv beta iota;
-      lazymatch g' with Some ?f => unfold f | _ => idtac end
-  end;
-  lazymatch goal with |- True => exact I | |- _ => idtac end.
-(** use the agreement lemma [H] of a callee (its [gen_] is [Some] here, or the caller would be [None]) *)
-Ltac callee H := unfold agrees1, agrees2, agrees3, agrees4, agrees5 in H;
-  lazymatch type of H with
-  | match ?g with Some _ => _ | None => _ end =>
-      let g' := eval red in g in change g with g' in H; cbv beta iota in H
-  end.
-
-Ltac by_agree H :=
-  lazymatch goal with
-  | |- match ?g with Some _ => _ | None => _ end =>
-      let g' := eval red in g in
-      change g with g' in H; change g with g'; cbv beta iota in H; cbv beta iota
-  end;
-  lazymatch goal with |- True => exact I | |- _ => intros; try (rewrite H; reflexivity) end.
-
 Lemma last_opt_last {A} (l : list A) a d : last_opt (l ++ [a]) = Some a /\ last (l ++ [a]) d = a.
 Proof.
   induction l as [|x l IH]; [split; reflexivity|].
